@@ -36,8 +36,11 @@ ZeroDM(o, e) ==
       inrange(i) == num(i) >= 0 /\ num(i) <= TopOf(o.nbits) * den IN
   /\ Shape(o, C, e.nsamps)
   /\ Len(o.valsq) = e.nsamps * C
-  /\ \A i \in 1..(e.nsamps * C) :      \* den = 0 (all-zero selection): the weights are undefined, nothing is required
-        (den > 0 /\ inrange(i)) => Abs(o.valsq[i] - ScaleR(<<num(i), den>>, e.q)) <= e.q + 2     \* one quantisation level
+  (* C07 bounds zero-DM removal "when NO value leaves the representable range": the premise is about the whole output (one value that
+     wraps in a packed byte also damages its neighbour), so values are required only of outputs that stay in range throughout.
+     den = 0 (all-zero selection): the weights are undefined, nothing is required *)
+  /\ (den > 0 /\ \A i \in 1..(e.nsamps * C) : inrange(i)) =>
+        \A i \in 1..(e.nsamps * C) : Abs(o.valsq[i] - ScaleR(<<num(i), den>>, e.q)) <= e.q + 2     \* one quantisation level
 
 EvOK(e) ==
   /\ e.outcome = "ok"
